@@ -220,6 +220,17 @@ def parse_error_trace(out):
     return states
 
 
+ACTION_HIST = {}      # spec action label -> number of steps replayed from -simulate behaviours in this process
+
+
+def _count_actions(states):
+    for st in states[1:]:
+        la = st.get("last", st.get("lastAct"))
+        name = la.get("a") if isinstance(la, dict) else (la[0] if isinstance(la, (list, tuple)) and la else None)
+        if name:
+            ACTION_HIST[name] = ACTION_HIST.get(name, 0) + 1
+
+
 def read_sim_traces(prefix):
     """Files written by -simulate file=prefix : prefix_<worker>_<n>. Each is a TLA+ module fragment with
     STATE_k == /\\ var = value ..."""
@@ -229,6 +240,7 @@ def read_sim_traces(prefix):
         for m in re.finditer(r"^STATE_(\d+) ==\s*\n(.*?)(?=^\\\*|^STATE_\d+ ==|^====|\Z)", txt, flags=re.M | re.S):
             states.append(parse_state(m.group(2)))
         if states:
+            _count_actions(states)
             yield states
 
 
